@@ -168,8 +168,14 @@ def check(run):
                     run.report("correspondence", {"request": c, "profile": prof}, {"impl": a, "model": b, "spec": "OK"},
                                broken="correspondence Arith.v vs command.rs on `%s`" % c, found_input=False)
         # hashed ranges
-        ih = vlib.run_lines(impl_exe, rs)
-        mh = vlib.run_lines(model, rs)
+        ih = vlib.run_lines(impl_exe, rs, timeout=3000)
+        mh = vlib.run_lines(model, rs, timeout=3000)
+        # a range whose process timed out or died (heavily loaded machine) is run again on its own before it is judged
+        for k in range(len(rs)):
+            if ih[k].startswith("TOOL") or mh[k].startswith("TOOL"):
+                run.note("range `%s` had no answer (%s / %s): run again on its own" % (rs[k], ih[k][:40], mh[k][:40]))
+                ih[k] = vlib.run_lines(impl_exe, [rs[k]], shards=1, timeout=3000)[0]
+                mh[k] = vlib.run_lines(model, [rs[k]], shards=1, timeout=3000)[0]
         for r, a, b in zip(rs, ih, mh):
             t = r.split()
             total_eval += int(t[3]) - int(t[2])
